@@ -304,7 +304,7 @@ class Model:
         if k == "map":
             return (
                 isinstance(j, dict)
-                and all(self.valid_key(key, t["key"]) for key in j)
+                and all(self.valid_key(key, t["key"], python_custom) for key in j)
                 and all(self.valid(v, t["value"], strict, python_custom) for v in j.values())
             )
         if k == "tuple":
@@ -321,16 +321,31 @@ class Model:
             return self._valid_obj(j, t["value"]["properties"], strict, python_custom)
         raise ValueError(k)
 
-    def valid_key(self, key: Any, kt: dict) -> bool:
-        """JSON object keys are strings; an `integer` key type constrains the text to an LSP integer."""
+    def valid_key(self, key: Any, kt: dict, python_custom: bool = False) -> bool:
+        """JSON object keys are strings; an `integer` key type constrains the text to an LSP integer, a reference to an
+        enumeration constrains it like a value of that enumeration (integer-based enumerations: the decimal text)."""
         if not isinstance(key, str):
             return False
         kt = self.resolve_alias(kt)
         if kt["kind"] == "base" and kt["name"] == "integer":
-            if not re.fullmatch(r"-?(0|[1-9][0-9]*)", key):
-                return False
-            return INT_MIN <= int(key) <= INT_MAX
+            return self._int_text(key, INT_MIN, INT_MAX) is not None
+        if kt["kind"] == "reference" and kt["name"] in self.enums:
+            e = self.enums[kt["name"]]
+            base = e["type"]["name"]
+            if base == "string":
+                v: Any = key
+            else:
+                v = self._int_text(key, *((INT_MIN, INT_MAX) if base == "integer" else (UINT_MIN, UINT_MAX)))
+                if v is None:
+                    return False
+            return self.enum_open(kt["name"], python_custom) or any(type(x["value"]) is type(v) and x["value"] == v for x in e["values"])
         return True
+
+    @staticmethod
+    def _int_text(key: str, lo: int, hi: int) -> Optional[int]:
+        if not re.fullmatch(r"-?(0|[1-9][0-9]*)", key):
+            return None
+        return int(key) if lo <= int(key) <= hi else None
 
     def _valid_any(self, j: Any) -> bool:
         if j is None or isinstance(j, (bool, str)):
